@@ -310,6 +310,12 @@ def whereTrue (m : List Bool) : List Nat :=
 def upDown (o : Out) : List Nat × List Nat :=
   (whereTrue (andL o.valid o.up), whereTrue (andL o.valid (o.up.map not)))
 
+/-- `itertools.combinations(leaves, 2)` on the sorted leaf list (`markers._prep_output_file`):
+row `idx` of every table belongs to the `idx`-th pair -/
+def combos2 {α} : List α → List (α × α)
+  | [] => []
+  | a :: rest => rest.map (fun b => (a, b)) ++ combos2 rest
+
 /-! ### sparse assembly: `_lookup_to_sparse`, chunks of `n_per`, `_merge_sparse_by_pair_files` -/
 
 /-- indptr without the final entry, starting at `off` -/
